@@ -630,6 +630,14 @@ def checkSolution (m : Model) (o : Opts) (xs : List Rat) (objv : List Rat) (know
       if o.mode &&& 992 ≠ 0 then (doCheckSol m o (recompute m o xs) objv r1.2 true).1 else []
     .checked r2 r1.1
 
+/-- `BasicBackend::IsProblemInfeasible()`: solve code in `sol::INFEASIBLE .. sol::INFEASIBLE_LAST` = 200..299 -/
+def isProblemInfeasible (code : Int) : Bool := decide (200 ≤ code) && decide (code ≤ 299)
+
+/-- `FlatBackend::GetSolution` → `PostsolveSolution` → `CheckSolution`: the "known infeasible" flag handed to the
+checker is `IsProblemInfeasible()` of the solver's status (and nothing else: not the unbounded / undecided statuses) -/
+def checkSolutionCode (m : Model) (o : Opts) (xs : List Rat) (objv : List Rat) (code : Int) : Outcome :=
+  checkSolution m o xs objv (isProblemInfeasible code)
+
 /-- are there report lines? -/
 def Outcome.hasReport : Outcome → Bool
   | .skipped => false
